@@ -280,7 +280,7 @@ func main() {
 	}
 
 	r.Rule("Every generated string is fed unchanged to every entry point (model.ParseName/ParseNameBare/ParseNameFromFilepath, names.Parse+default mask, blob.nameToPath, Registry.parseNameExtended/splitExtended, server.ParseModelPath(..).GetManifestPath, server.GetBlobsPath, blob.ParseDigest+DiskCache.GetFile). " +
-		"Spaces, all enumerated completely: S = all strings of <= n symbols over the 17-symbol alphabet in bounds.sigma; N = every name form (m, m:t, n/m, m@d, n/m:t, h/n/m, m:t:x, h/n/m:t, h/n/m/t, n:t/m:t, h\\n\\m\\t) with every part drawn from bounds.part_alphabet (lengths 79/80/81/349/350/351, '.', '..', empty, placeholder, separator/control/non-ASCII bytes, the defaults in both cases); W = 5-part forms over a 12-value alphabet; X = scheme x name x @digest decorations; D = digest prefix x separator x body(63/64/65, lower/upper/mixed/zero, non-hex or traversal bytes at each end and inside) x suffix x lead; E = a well-formed digest with every sigma string of <= k symbols inserted at / overwriting 8 offsets. " +
+		"Spaces, all enumerated completely: S = all strings of <= n symbols over the 17-symbol alphabet in bounds.sigma (thorough: the layer of exactly n symbols runs last, first over the 12-symbol bounds.sigma_core, then the strings containing one of the other 5 symbols); N = every name form (m, m:t, n/m, m@d, n/m:t, h/n/m, m:t:x, h/n/m:t, h/n/m/t, n:t/m:t, h\\n\\m\\t) with every part drawn from bounds.part_alphabet (lengths 79/80/81/349/350/351, '.', '..', empty, placeholder, separator/control/non-ASCII bytes, the defaults in both cases); W = 5-part forms over a 12-value alphabet; X = scheme x name x @digest decorations; D = digest prefix x separator x body(63/64/65, lower/upper/mixed/zero, non-hex or traversal bytes at each end and inside) x suffix x lead; E = a well-formed digest with every sigma string of <= k symbols inserted at / overwriting 8 offsets. " +
 		"F = real-directory cases: for every sigma string of <= 4 symbols plus 15 spelled-out names that the real parser accepts, the manifest is created with the real WriteManifest / DiskCache.Link, the directory tree is listed, and every case variant of the name is resolved through getExistingName+ParseNamedManifest+ParseModelPath and through parseNameExtended+DiskCache.manifestPath/Resolve/Unlink; F2 = the same with every pair of distinct h/n/m:t names over {lower, upper, other} per part in the store. " +
 		"A case is non-trivial when at least one entry point accepts the string, i.e. a path or a parsed name was actually derived and checked (F cases: the store could be built); distinct_nontrivial counts distinct such inputs.")
 	r.Assume(
@@ -393,12 +393,12 @@ func main() {
 		var evals int64
 		accCount := map[uint32]int64{}
 		// samples: one rejected and one accepted input from one item per family
-		wantSamples := map[string]bool{"N m:t -1": true, "N h/n/m:t 7": true, "W h/n/m/t/x 0": true, "X h/n/m:t 1": true, "D 0": true, "E 0": true, "S short": true, "S 0 7": true, "T 0 7": true}[item]
+		wantSamples := map[string]bool{"N m:t -1": true, "N h/n/m:t 7": true, "W h/n/m/t/x 0": true, "X h/n/m:t 1": true, "D 0": true, "E 0": true, "S short": true, "S 0 7": true, "T 0 7": true, "U 0 11": true}[item]
 		firstSample, accSample := !wantSamples, !wantSamples
 		var bpCalls int64
 		runItem(item, b, func(s string) {
 			evals++
-			bp := fam == "D" || fam == "E" || (fam == "S" || fam == "T") && symCount(s) <= b.BlobsPathSigmaLen
+			bp := fam == "D" || fam == "E" || (fam == "S" || fam == "T" || fam == "U") && symCount(s) <= b.BlobsPathSigmaLen
 			if bp {
 				bpCalls++
 			}
@@ -426,7 +426,7 @@ func main() {
 				record("str", k.fails, func() []fail { return e.checkStr(s, bp).fails }, strCase(s), len(s), s)
 			}
 		})
-		if fam == "T" {
+		if fam == "T" || fam == "U" {
 			fam = "S"
 		}
 		sub.Add("evaluations", evals)
@@ -450,7 +450,7 @@ func main() {
 		if len(show) > 6 {
 			show = show[:6]
 		}
-		r.NotExhaustive(fmt.Sprintf("internal time budget of %v used up: the last %d of %d work items were not run (from %q on: %s ...). Items run in the order F (real directory), N, W, X, D, E, S (sigma strings below the longest length), T (sigma strings of exactly %d symbols, one item per pair of first two symbols, index into bounds.sigma); every item before %q was covered completely", budget, len(skippedItems), len(items), show[0], strings.Join(show, "; "), b.SigmaLen, show[0]))
+		r.NotExhaustive(fmt.Sprintf("internal time budget of %v used up: the last %d of %d work items were not run (from %q on: %s ...). Items run in the order F (real directory), N, W, X, D, E, S (sigma strings below the longest length), T (strings of exactly %d symbols over the 12-symbol sub-alphabet bounds.sigma_core), U (strings of exactly %d symbols with at least one of the other 5 symbols); T and U have one item per pair of first two symbols (indices into bounds.sigma); every item before %q was covered completely", budget, len(skippedItems), len(items), show[0], strings.Join(show, "; "), b.SigmaLen, b.SigmaLen, show[0]))
 	}
 
 	// hand the violations to evid, smallest case per signature, in a stable order
@@ -487,8 +487,14 @@ func main() {
 	for i, p := range sigma {
 		qs[i] = q(p)
 	}
+	var qcore []string
+	for i, p := range sigma {
+		if sigmaCore[i] {
+			qcore = append(qcore, q(p))
+		}
+	}
 	r.Extra("bounds", map[string]any{
-		"sigma": qs, "sigma_max_symbols": b.SigmaLen, "sigma_max_symbols_fed_to_GetBlobsPath": b.BlobsPathSigmaLen, "part_alphabet": qa, "wide_part_alphabet": len(partsSmall),
+		"sigma": qs, "sigma_core": qcore, "sigma_max_symbols": b.SigmaLen, "sigma_max_symbols_fed_to_GetBlobsPath": b.BlobsPathSigmaLen, "part_alphabet": qa, "wide_part_alphabet": len(partsSmall),
 		"schemes": schemes, "digest_suffixes": len(digestSuffixes), "digest_family": map[string]int{"prefixes": len(digPrefixes), "separators": len(digSeps), "bodies": len(digBodies()), "suffixes": len(digSuffixes), "leads": len(digLeads)},
 		"digest_sigma_inserted_symbols": b.DigestSigmaLen, "fs_sigma_max_symbols": b.FSSigmaLen, "two_manifest_stores": len(twoManifestStores(thorough)), "two_manifest_rounds": rounds2,
 	})
